@@ -1,5 +1,8 @@
 """C01 - every count terminates with the seats filled and every candidate decided"""
+from hypothesis import strategies as st
+
 from .. import gen, model, drive
+from ..gen import D
 from ..run import Result
 from ..drive import exc_sig, ProgressBound
 from . import common
@@ -16,8 +19,17 @@ ASSUMPTIONS = ['termination is observed within a deterministic round bound, not 
                'Meek/Warren with rational arithmetic beyond 12 iterations is not explored (budget)']
 
 
+@st.composite
+def cases(draw, tier):
+    d = D(draw)
+    case = draw(gen.election_cases(tier=tier))
+    if case['rule'] in model.GREGORY and d.p(2):
+        case = gen.astronomic(d, case)      # an electorate beyond 2^53 ballots: Gregory counts are integer arithmetic throughout
+    return case
+
+
 def strategy(tier):
-    return gen.election_cases(tier=tier)
+    return cases(tier)
 
 
 def check(case):
